@@ -31,9 +31,8 @@ theorem indexed_append (c : Nat) (hc : 1 ≤ c) (ix : Arr Nat) (vals : Arr Byte)
       s.values.contents = (xs0 ++ written parts).flatten ∧
       s.indices.contents = offsets (xs0 ++ written parts) ∧
       s.valueIndex = 0 ∧ s.indexIndex = 0 := by
-  obtain ⟨s1, h1, hI⟩ := writeParts_inv parts _ xs0 (init_inv c hc ix vals xs0 hv hi)
-  obtain ⟨s2, h2, hC⟩ := complete_inv hI
-  exact ⟨s2, by simp [writeOnto, h1, h2], hC.values, hC.indices, hC.valueIndex, hC.indexIndex⟩
+  obtain ⟨s, h, hC, _⟩ := writeRound_inv (init_inv c hc ix vals xs0 hv hi) parts
+  exact ⟨s, by simpa [writeOnto] using h, hC.values, hC.indices, hC.valueIndex, hC.indexIndex⟩
 
 /-- The round trip on a fresh field (memory-backed or HDF5): for every chunk size `c ≥ 1` and every partition of the
     sequence into `write_part` calls (empty parts and the empty sequence included), the stored bytes are the
@@ -51,6 +50,22 @@ example : ∃ s, writeField .repaired 2 true [[[97, 98], [], [195, 169]], [], [[
   ⟨_, rfl, rfl, rfl⟩
 
 example : ∃ s, writeField .repaired 3 false [] = .ok s ∧ s.values.contents = [] ∧ s.indices.contents = [0] :=
+  ⟨_, rfl, rfl, rfl⟩
+
+/-- Histories: any number of rounds (each a list of `write_part` calls closed by `complete()`), either going on with the
+    same writer object or taking a new one on the field's arrays for every round (`field.writeable()`, a reopened
+    dataset), leave the concatenation of everything written, with its offsets. -/
+theorem indexed_rounds (c : Nat) (hc : 1 ≤ c) (h5 rewrap : Bool) (rounds : List (List (List Bytes))) (hne : rounds ≠ []) :
+    ∃ s, writeRounds .repaired c h5 rewrap rounds = .ok s ∧
+      s.values.contents = (written (rounds.map written)).flatten ∧
+      s.indices.contents = offsets (written (rounds.map written)) ∧
+      s.valueIndex = 0 ∧ s.indexIndex = 0 := by
+  obtain ⟨s, h, _, hC⟩ := writeRounds_inv c hc h5 rewrap rounds
+  have hC := hC hne
+  exact ⟨s, h, hC.values, hC.indices, hC.valueIndex, hC.indexIndex⟩
+
+example : ∃ s, writeRounds .repaired 2 true true [[[[97, 98]]], [], [[[99]], [[], [100]]]] = .ok s ∧
+    s.values.contents = [97, 98, 99, 100] ∧ s.indices.contents = [0, 2, 3, 3, 4] :=
   ⟨_, rfl, rfl, rfl⟩
 
 /-- The stored offsets start at 0, never decrease, end at the number of stored bytes and number one more than the
